@@ -354,11 +354,10 @@ class Interp:
         if f.modname in self.config.get('spec_modules', ()) and not kwargs \
                 and any(isinstance(a, SymList) for a in args):
             model = self.config.get('symlist_models', {}).get(f.qualname)
-            if model is None:
-                self.unsupported(f"spec function {f.qualname} over a list of symbolic length (no fold model)", node)
-            r = model(self, list(args))
-            if r is not NotImplemented:
-                return r
+            if model is not None:       # without a model the body is interpreted (generators become folds/quantifiers)
+                r = model(self, list(args))
+                if r is not NotImplemented:
+                    return r
         if f.modname in self.config.get('spec_modules', ()) and not kwargs and f.closure is None \
                 and not f.is_generator:
             ks = []
@@ -426,7 +425,16 @@ class Interp:
             if i < len(args):
                 env[name] = args[i]
         extra = args[nparams:]
-        if a.vararg:
+        if any(isinstance(x, StarSym) for x in args):
+            # f(*xs) with xs of symbolic length: only when xs alone makes up the *args parameter
+            if not (a.vararg and len(extra) == 1 and isinstance(extra[0], StarSym)
+                    and not any(isinstance(x, StarSym) for x in args[:nparams])):
+                self.unsupported("*<list of symbolic length> not matching a *args parameter exactly")
+            c = extra[0].lst.snapshot()      # the callee sees a tuple: an immutable copy
+            c.origin = None
+            c.pytype = tuple
+            env[a.vararg.arg] = c
+        elif a.vararg:
             env[a.vararg.arg] = tuple(extra)
         elif extra:
             raise PyRaise(TypeError)
@@ -1359,7 +1367,11 @@ class Interp:
         args = []
         for a in node.args:
             if isinstance(a, ast.Starred):
-                args.extend(self.iterate(self.eval(a.value, env), a))
+                sv = self.eval(a.value, env)
+                if isinstance(sv, SymList):
+                    args.append(StarSym(sv))
+                else:
+                    args.extend(self.iterate(sv, a))
             else:
                 args.append(self.eval(a, env))
         kwargs = {}
@@ -1440,6 +1452,7 @@ class Interp:
             L = itv.lst if isinstance(itv, EnumSym) else itv
             lo, hi, src = z3.IntVal(0), L.n, ListView(L)
         self.generic_depth = getattr(self, 'generic_depth', 0) + 1
+        self.generic_ranges = getattr(self, 'generic_ranges', []) + [z3.And(lo <= j, j < hi)]
         try:
             if isinstance(itv, SymRange):
                 tv = SInt(j)
@@ -1453,6 +1466,7 @@ class Interp:
             r = self.try_pure_call(body, z3.And(lo <= j, j < hi))
         finally:
             self.generic_depth -= 1
+            self.generic_ranges = self.generic_ranges[:-1]
         if r is None:
             self.unsupported("element expression of a generator over a list of symbolic length needs a case split", node)
         v = r[0]
